@@ -2,8 +2,8 @@
 
     A case is a tree (initial positions), an operation list, and what the real
     TreeStateHandler produced after every operation: the branches it returned (identifiers and
-    values), the full global state read back with [extract_global_state()] (only stored when it
-    differs from the previous one), and how many attribute slots of all branches handed out so
+    values), the full global state read back with [extract_global_state()] (stored as the list of
+    entries that differ from the previous read), and how many attribute slots of all branches handed out so
     far hold an object that IS (Python [id()]) an object of the global state. *)
 From Coq Require Import ZArith List Bool Arith PArith Uint63.
 Require Import JF.Base.Store JF.Model.StateHandler.
@@ -62,10 +62,23 @@ Definition branch_view (s : store) (b : branch) : list (ident * uv) :=
 
 Record sexp := mkExp {
   e_ret : list (list (ident * uv));   (* branches returned by this operation *)
-  e_same : bool;                      (* global state read back equals the previous one *)
-  e_glob : list (ident * uv);         (* otherwise: the new global state *)
+  e_glob : list (ident * uv);         (* the entries of the global state read back after the operation that
+                                         differ from the previous read ([] = nothing changed) *)
   e_alias : nat
 }.
+
+Fixpoint lookup_exp (id : ident) (l : list (ident * uv)) : option uv :=
+  match l with
+  | [] => None
+  | (k, v) :: r => if ident_eqb id k then Some v else lookup_exp id r
+  end.
+
+(** [now] = [prev] overridden by exactly the entries [e] (every listed identifier exists). *)
+Definition glob_ok (prev now : list (ident * option uv)) (e : list (ident * uv)) : bool :=
+  list_eqb (fun x y => ident_eqb (fst x) (fst y) &&
+                       opt_eqb uv_eqb (snd y) (match lookup_exp (fst y) e with Some v => Some v | None => snd x end))
+           prev now
+  && forallb (fun kv : ident * uv => existsb (fun y : ident * option uv => ident_eqb (fst kv) (fst y)) now) e.
 
 Record scase := mkCase {
   sc_levels : nat;
@@ -83,8 +96,7 @@ Definition check_step (disc : bool) (c : cstate) (o : op) (e : sexp) : cstate * 
   let ok :=
     (if disc then op_okb c o else true)
     && list_eqb (list_eqb iduv_eqb) ret (e_ret e)
-    && (if e_same e then abs_same (abs_list (c_g c')) (abs_list (c_g c))
-        else snap_eqb (abs_list (c_g c')) (e_glob e))
+    && glob_ok (abs_list (c_g c)) (abs_list (c_g c')) (e_glob e)
     && Nat.eqb (alias_count c') (e_alias e) in
   (c', ok).
 
